@@ -1768,12 +1768,24 @@ func ReadTerm(vm *VM, streamOrAlias, out, options Term, k Cont, env *Env) *Promi
 		return Error(err)
 	}
 
-	p := NewParser(vm, s)
-	defer func() {
-		_ = s.UnreadRune()
-	}()
+	if s.mode == ioModeRead && s.endOfStream == endOfStreamPast && s.eofAction == eofActionError {
+		return Error(permissionError(operationInput, permissionTypePastEndOfStream, streamOrAlias, env))
+	}
 
+	p := NewParser(vm, s)
+
+	// The reader looks ahead, possibly beyond the end of the text more than once.
+	// The eof_action applies to read_term/3 as a whole, not to its look-ahead.
+	action := s.eofAction
+	if action == eofActionError {
+		s.eofAction = eofActionEOFCode
+	}
 	t, err := p.Term()
+	s.eofAction = action
+	if uerr := s.UnreadRune(); uerr != nil && err == nil && s.endOfStream == endOfStreamPast {
+		// A term was read and the look-ahead hit the end of the text, which is yet to be delivered.
+		s.endOfStream = endOfStreamAt
+	}
 	switch err {
 	case nil:
 		break
